@@ -17,7 +17,7 @@
    recorded findings, see C07/Refuted.v).  The pointwise-2-norm group functionals and the KL family are
    modelled and tied by the correspondence only.                                                        *)
 From Coq Require Import Reals Lra List Bool.
-From Verif Require Import Base.Num Base.Vec Base.VecR C07.Model C07.Convex C07.Leaves C07.LeafThms C07.Rules C07.L2 C07.Compose C07.Sorting C07.Proofs C07.Refuted.
+From Verif Require Import Base.Num Base.Vec Base.VecR C07.Model C07.Convex C07.Leaves C07.LeafThms C07.Rules C07.L2 C07.Compose C07.Sorting C07.KL C07.Proofs C07.Refuted.
 Import ListNotations.
 Local Open Scope R_scope.
 
@@ -232,6 +232,25 @@ Theorem linfty_prox : forall n (sigma : R) (x : list R), 0 < sigma -> length x =
             is_proxs n (leaf_val FLInf (repeat 1 n)) (repeat (/ sigma) n) x p.
 Proof. exact linf_leaf_prox. Qed.
 Print Assumptions linfty_prox.
+
+(* Kullback-Leibler (values involve ln, so these leaves are outside the executable tree model; the proximal
+   formulas are the model's, tied by the correspondence):
+   proximal_convex_conj_kl(space, lam, g)(sigma)(x) = (x + lam - sqrt((x-lam)^2 + 4 lam sigma g))/2 is the proximal
+   point of  sum_i w_i (- lam g_i ln(1 - y_i/lam))  (+infinity unless y < lam), i.e. of KullbackLeibler(prior=g)
+   .convex_conj for lam = 1;  and KullbackLeibler(prior=g).proximal = proximal_convex_conj(...) is the proximal point
+   of  sum_i w_i (z_i - g_i + g_i ln(g_i / z_i))  (+infinity unless z > 0).   Prior g > 0. *)
+Theorem kl_convex_conj_prox : forall lam n (g w x : list R) (s : R), 0 < lam -> 0 < s -> allpos g ->
+  length g = n -> length w = n -> length x = n -> allpos w ->
+  is_proxs n (sepsum (map (fun gi t => if Rltb t lam then Some (- lam * gi * ln (1 - t / lam)) else None) g) w)
+           (metric w (repeat s n)) x (prox_cc_kl lam (Some g) s x).
+Proof. exact klcc_factory_prox. Qed.
+Theorem kl_prox : forall n (g w x : list R) (s : R), 0 < s -> allpos g ->
+  length g = n -> length w = n -> length x = n -> allpos w ->
+  exists p, prox_convex_conj (fun s' y => needs_scalar s' (fun sg => Ok (prox_cc_kl 1 (Some g) sg y))) (SScal s) x = Ok p /\
+    is_proxs n (sepsum (map (fun gi t => if Rltb 0 t then Some (t - gi + gi * ln (gi / t)) else None) g) w)
+             (metric w (repeat s n)) x p.
+Proof. exact kl_binding_prox. Qed.
+Print Assumptions kl_prox.
 
 (* The FULL statement -- the tree theorem for every leaf on every positively weighted space, i.e.
        forall e, (weights positive, scalars admissible) -> fprox e (SScal sigma) x minimises ...
